@@ -764,6 +764,7 @@ def run_wrap(ctx, fam):
         kind = KINDS[i % len(KINDS)]
         scripts.append(wrap_ops_to_script('wrap-walk-%d-%d' % (ctx.seed, i), ops, kind, i % 3 != 0, ['tlc-walk']))
     scripts += vlib.go_gen(ctx, 'wrap', 2400 if t else 400, ctx.seed)
+    scripts += vlib.go_gen(ctx, 'wrap-default', 50 if t else 10, ctx.seed)
     scripts += corpus_scripts('wrap')
     return finish(ctx, fam, scripts, 'Wrap_Trace', wrap_mutants, wrap_features)
 
@@ -1037,6 +1038,8 @@ def run_config(ctx, fam):
     log('[%s] %d accepted grid points -> generic histories (parser + wrap)' % (ctx.prop, len(uniq)))
     ps += vlib.go_gen(ctx, 'parser', 700 if t else 140, ctx.seed)
     ps += vlib.go_gen(ctx, 'parser-cap', 210 if t else 42, ctx.seed)
+    ps += vlib.go_gen(ctx, 'parser-ntlfuture', 250 if t else 50, ctx.seed)
+    ws += vlib.go_gen(ctx, 'wrap-default', 40 if t else 8, ctx.seed)
     ws += vlib.go_gen(ctx, 'wrap', 700 if t else 140, ctx.seed)
     rc2 = finish(ctx, dict(fam, rule='accepted boundary configurations (ShrinkSize = BufferSize, BufferSize < InputLen, WindowSize 1, BlockSize 1, HashBits maximum, MinMatchLen = MaxMatchLen, defaults) driven through two buffer fills, Shrink, Reset(nil/data/oversize), NoTrailingLiterals, nil blocks and probes + seeded parser histories; rules C16.no_panic, C16.no_hang, C16.err_documented'),
                  ps, 'Parser_Trace', parser_mutants, parser_features, extra_env={'VERIF_C11': '0', 'VERIF_C12': '0'})
@@ -1143,7 +1146,7 @@ SUFFIX_ASSUME = [
     'recorded texts are <= 4096 bytes (<= 1500 in the quick tier; <= 700 for single runs, <= 600 for Segments): deep DivSufSort paths that need larger inputs with production thresholds are reached through the verif-tagged SortCfg hook only (informational DRIFT09 rules)',
 ]
 
-MIX_GENERAL = dict(walks=140, hp=450, design=('GSAP.tla', 'GSAP_q.cfg', 'GSAP_m.cfg', 300), go=[('parser', 350), ('parser-runs', 49), ('parser-osap', 28), ('parser-cap', 28), ('parser-sa-ntl', 70)])
+MIX_GENERAL = dict(walks=140, hp=450, design=('GSAP.tla', 'GSAP_q.cfg', 'GSAP_m.cfg', 300), go=[('parser', 350), ('parser-runs', 49), ('parser-osap', 28), ('parser-cap', 28), ('parser-sa-ntl', 70), ('parser-ntlfuture', 50)])
 
 def fam_dbuf(rule):
     return dict(run=run_dbuf, trace_module='DecoderBuf_Trace', rule=rule, assumptions=DBUF_ASSUME)
@@ -1180,7 +1183,7 @@ PROPS = {
         dict(run=run_bitset, trace_module='Bitset_Trace', assumptions=['the verif-tagged VerifBitset hook forwards to the unexported bitset methods without adding behaviour'],
              rule='the search set of GSAP on its own: every transition of Bitset.tla (insert / delete / clear over positions around the 64-bit word boundaries, incl. re-use of the backing array after clear and downward growth) + seeded longer histories run on the real bitset through the VerifBitset hook; rules C12.bitset_members, C12.bitset_neighbours (set semantics)'),
         fam_parser('recordings: GSAP only, histories without Parse(nil), blocks <= 64 bytes, buffers <= 130 bytes, half of them with BufferSize <= WindowSize, several fills / Shrinks / Resets; rules C12.match_longest (every emitted match equals the brute-force longest previous match in the buffered data, clipped at the block end) and C12.literal_justified', dict(walks=0, go=[('parser-gsap', 260), ('parser-sa-ntl', 60)]), design=('GSAP.tla', 'GSAP_m.cfg', 'GSAP_T.cfg', 1500))]),
-    'C11': fam_parser('recordings: OSAP only, flags 0 mostly, blocks <= 64 bytes, buffers <= 130 bytes, several blocks per fill (edge reuse), blocks after Shrink; rule C11.cost_optimal: BlockCost = OptCost (forward DP over literal and nearest-source match edges written in TLA+)', dict(walks=0, go=[('parser-osap', 170), ('parser-sa-ntl', 30)]), design=('OSAP.tla', 'OSAP_q.cfg', 'OSAP_T.cfg', 1200)),
+    'C11': fam_parser('recordings: OSAP only, flags 0 mostly, blocks <= 64 bytes, buffers <= 130 bytes, several blocks per fill (edge reuse), blocks after Shrink; rule C11.cost_optimal: BlockCost = OptCost (forward DP over literal and nearest-source match edges written in TLA+)', dict(walks=0, go=[('parser-osap', 170), ('parser-sa-ntl', 30), ('parser-osap-long', 10)]), design=('OSAP.tla', 'OSAP_q.cfg', 'OSAP_T.cfg', 1200)),
     'C06': fam_dec('histories = random walks of Decoder.tla (API calls x writer fault schedule) + seeded Go-side histories with sizes around BufferSize-WindowSize / BufferSize, B < 2W, fault schedules and the retry protocol; C06 = no livelock / timeout event (no envelope action exists for them); liveness of the retry loops is model-checked (Terminates) on the design; non-trivial = distinct script with several flushes in one call, data larger than the free space, a refused or rejected block, or a writer fault'),
     'C07': dict(run=run_multi, trace_module=None, parts=[
         fam_dec('same recordings as C06; rule C07.refused: without a writer fault a Decoder call may stop only at a malformed sequence; non-trivial as for C06'),
